@@ -835,6 +835,50 @@ fn scenario(a: &Args) {
     write_json(&a.str("out"), &json!({"issues": issues, "log": log}));
 }
 
+/// largem out=<json> seed=N : balance of the offset map at sizes far above the grids (the property holds for all m):
+/// one reset, then n draws with a real generator; as long as few positions have been touched the returned value is the
+/// drawn index itself, so offset = value - (number of draws so far) when value >= that number.  Histograms of the offset
+/// modulo 16 (low bits: precision of the index computation) and of its top 4 bits (high bits), per size.
+fn largem(a: &Args) {
+    use rand::SeedableRng;
+    silence_panics();
+    let seed = a.u64_or("seed", 1);
+    let n = a.usize_or("n", 200_000);
+    let mut cases: Vec<Value> = Vec::new();
+    for m in [65_537usize, 1 << 20, (1 << 24) + 0] {
+        let r = catch(|| {
+            let mut rng = rand_xoshiro::Xoshiro256PlusPlus::seed_from_u64(seed ^ m as u64);
+            let mut fy = FYshuffle::new(m);
+            fy.reset();
+            let mut low = vec![0u64; 16];
+            let mut high = vec![0u64; 16];
+            let mut used = 0u64;
+            let mut oob = 0u64;
+            let draws = n.min(m / 64);
+            for k in 0..draws {
+                let v = fy.next(&mut rng);
+                if v >= m {
+                    oob += 1;
+                    continue;
+                }
+                if v >= k {
+                    let off = v - k;
+                    let span = m - k;
+                    low[off % 16] += 1;
+                    high[(off as u128 * 16 / span as u128) as usize] += 1;
+                    used += 1;
+                }
+            }
+            (low, high, used, oob, draws)
+        });
+        match r {
+            Ok((low, high, used, oob, draws)) => cases.push(json!({"m": m, "low": low, "high": high, "used": used, "out_of_bounds": oob, "draws": draws})),
+            Err(msg) => cases.push(json!({"m": m, "panic": msg})),
+        }
+    }
+    write_json(&a.str("out"), &json!({"cases": cases}));
+}
+
 fn main() {
     let argv: Vec<String> = std::env::args().collect();
     if argv.len() < 2 {
@@ -848,6 +892,7 @@ fn main() {
         "record" => record(&a),
         "measure" => measure(&a),
         "scenario" => scenario(&a),
+        "largem" => largem(&a),
         other => tool_error(&format!("unknown subcommand {}", other)),
     }
 }
